@@ -377,6 +377,18 @@ func execAPI(c *ctx, rng *rand.Rand, pl *apiPool, s skelStep, small []xy) {
 			if err == nil {
 				pl.buf[s.B] = b
 			}
+		case "pt.NewFromBytes":
+			p, err := secp256k1.NewPointFromBytes(pl.buf[s.B])
+			fail(err)
+			if err == nil {
+				pl.pt[s.V] = p
+			}
+		case "pt.NewIdentity":
+			pl.pt[s.V] = secp256k1.NewIdentityPoint()
+		case "pt.NewGenerator":
+			pl.pt[s.V] = secp256k1.NewGeneratorPoint()
+		case "pt.NewFrom":
+			pl.pt[s.V] = secp256k1.NewPointFrom(pl.pt[s.P])
 		case "pt.IsYOdd":
 			reply = int(pl.pt[s.P].IsYOdd())
 		case "pt.FromCoords":
